@@ -144,8 +144,11 @@ func cmdCheck(args []string) int {
 	if *only != "" {
 		var f []*Job
 		for _, j := range jobs {
-			if strings.Contains(j.Name, *only) {
-				f = append(f, j)
+			for _, alt := range strings.Split(*only, "|") {
+				if strings.Contains(j.Name, alt) {
+					f = append(f, j)
+					break
+				}
 			}
 		}
 		jobs = f
